@@ -88,6 +88,9 @@ func (m *model) apply(o Op, st *stats) {
 				if len(e.Keys) > 0 && !u.Element {
 					s.keyed = true
 				}
+				if strings.Contains(strings.Join(gn.IndexOfElems([]gn.Elem{e}, u.Element), gn.Sep), "/") {
+					s.slashPath = true
+				}
 			}
 			if u.Origin != "" {
 				s.origin = true
